@@ -16,7 +16,7 @@ from hypothesis import strategies as st
 import yatiml
 
 from yv import gen, models, tree as T
-from yv.runner import HypPhase
+from yv.runner import EnumPhase, HypPhase
 
 ID = 'C17'
 RULE = ('(weak) Hypothesis draws an arbitrary model (hierarchies, abstract '
@@ -149,6 +149,43 @@ def strong_cases(draw):
     return {'kind': 'strong', 'model': spec, 'tree': tree, 'corruption': kind,
             'path': list(path), 'info': info,
             'repl': draw(st.sampled_from(['wrongtype', '12345', '[1]', '{zz: 1}', '1.5', 'true', '~']))}
+
+
+SC_CLASS = {'name': 'SC', 'kind': 'obj', 'bases': [], 'params': [
+    {'name': 'u', 'type': ['union', 'int', 'str']}, {'name': 'o', 'type': ['opt', 'int']},
+    {'name': 'w', 'type': ['union', 'float', 'bool', 'none']},
+    {'name': 'n', 'type': 'int'}, {'name': 'm', 'type': 'int'}, {'name': 't', 'type': 'str'},
+    {'name': 'f', 'type': 'float'}]}
+REPLS = ['wrongtype', '12345', '[1]', '{zz: 1}', '1.5', 'true', '~']
+
+
+def enum_scalar_unions(shard, nshards):
+    """Class SC (scalar Unions and Optionals before plain int/str/float
+    attributes): every combination of alternative taken by the valid values x
+    every attribute corrupted x every replacement, as the document, as the second
+    item of a list and as a dict value."""
+    i = 0
+    for u in ('big', '5'):
+        for o in ('~', '3'):
+            for w in ('1.5', 'true', '~'):
+                vals = [('u', u), ('o', o), ('w', w), ('n', '7'), ('m', '8'), ('t', 'txt'), ('f', '2.5')]
+                obj = T.M([(k, T.S(v)) for k, v in vals])
+                for wrap in ('doc', 'list', 'dict'):
+                    for idx in range(len(vals)):
+                        for repl in REPLS:
+                            if i % nshards == shard:
+                                if wrap == 'doc':
+                                    tree, path, dt = obj, [1, idx, 1], ['ref', 'SC']
+                                elif wrap == 'list':
+                                    tree, path, dt = T.Q([copy.deepcopy(obj), copy.deepcopy(obj)]), [1, 1, 1, idx, 1], ['list', ['ref', 'SC']]
+                                else:
+                                    tree, path, dt = (T.M([('first', copy.deepcopy(obj)), ('second', copy.deepcopy(obj))]),
+                                                      [1, 1, 1, 1, idx, 1], ['dict', 'str', ['ref', 'SC']])
+                                yield {'kind': 'strong', 'model': {'classes': [SC_CLASS], 'order': ['SC'],
+                                                                   'doc_type': dt},
+                                       'tree': tree, 'corruption': 'scalar', 'path': path,
+                                       'info': 'scalar', 'repl': repl}
+                            i += 1
 
 
 def node_at(node, path):
@@ -401,4 +438,9 @@ def node_walk(node, path):
 def phases(tier):
     quick = tier != 'thorough'
     return [HypPhase('weak_claim', weak_cases(), 250 if quick else 4000),
-            HypPhase('strong_claim', strong_cases(), 250 if quick else 4000)]
+            HypPhase('strong_claim', strong_cases(), 250 if quick else 4000),
+            EnumPhase('scalar_union_template', enum_scalar_unions,
+                      'class SC with Union[int, str], Optional[int], Union[float, bool, None] '
+                      'attributes before int/str/float ones: 12 combinations of valid values x 7 '
+                      'corrupted attributes x 7 replacements x 3 positions (document, list item, '
+                      'dict value)')]
